@@ -175,6 +175,9 @@ func isStdoutWrite(i ssa.Instruction) (bool, string) {
 		if g := loadedGlobal(unwrapConv(call.Call.Args[0])); g != nil && g.Name() == "Stdout" && g.Pkg != nil && g.Pkg.Pkg.Path() == "os" {
 			return true, n + "(os.Stdout, …)"
 		}
+		if g := loadedGlobal(unwrapConv(call.Call.Args[0])); g != nil && stdAliasFree(g, "Stdout") {
+			return true, n + "(" + g.Name() + " = os.Stdout, …)"
+		}
 	}
 	if strings.HasPrefix(n, "os.(*File).Write") {
 		if g := loadedGlobal(call.Call.Args[0]); g != nil && g.Name() == "Stdout" {
@@ -697,7 +700,7 @@ func ruleCmd(c *Ctx) {
 				add(key, b.rel(mainFn.Pos()), false, "", "the command does not call ReadAll, DecodePatch and Patch.Apply")
 			} else {
 				bad := ""
-				if g := loadedGlobal(unwrapConv(readAll.Call.Args[0])); g == nil || g.Name() != "Stdin" {
+				if g := loadedGlobal(unwrapConv(readAll.Call.Args[0])); g == nil || (g.Name() != "Stdin" && !b.aliasOfStd(g, "Stdin")) {
 					bad = "the document is not read from os.Stdin"
 				}
 				isStdin := func(v ssa.Value) bool {
@@ -758,6 +761,17 @@ func ruleCmd(c *Ctx) {
 								return
 							}
 							ops, ok := varargsOperands(call.Call.Args[1])
+							if ok && len(ops) == 1 {
+								operand = ops[0]
+							}
+						case strings.HasPrefix(what, "fmt.Fprintf("):
+							// Fprintf(w, "%s", doc): Printf with the writer spelled out
+							f, ok := strConst(call.Call.Args[1])
+							if !ok || f != "%s" {
+								bad = "the print format is not the constant \"%s\" (a document containing % would be mangled, or extra bytes are printed)"
+								return
+							}
+							ops, ok := varargsOperands(call.Call.Args[2])
 							if ok && len(ops) == 1 {
 								operand = ops[0]
 							}
@@ -1063,6 +1077,38 @@ func ruleCmd(c *Ctx) {
 						}
 					}
 				})
+				// the same test spelled on the mode bits: stat.Mode()&os.ModeDir != 0
+				allInstrs(uf, func(i ssa.Instruction) {
+					bo, ok := i.(*ssa.BinOp)
+					if !ok || bo.Op != token.AND || okDir {
+						return
+					}
+					k, isK := intConst(bo.Y)
+					mc, isCall := bo.X.(*ssa.Call)
+					if !isK || uint32(k) != 1<<31 || !isCall || !mc.Call.IsInvoke() || mc.Call.Method.Name() != "Mode" || bo.Referrers() == nil {
+						return
+					}
+					for _, r := range *bo.Referrers() {
+						cmp, ok := r.(*ssa.BinOp)
+						if !ok || (cmp.Op != token.NEQ && cmp.Op != token.EQL) || cmp.Referrers() == nil {
+							continue
+						}
+						if z, isZ := intConst(cmp.Y); !isZ || z != 0 {
+							continue
+						}
+						for _, r2 := range *cmp.Referrers() {
+							if iff, ok := r2.(*ssa.If); ok {
+								dirSucc := 0
+								if cmp.Op == token.EQL {
+									dirSucc = 1
+								}
+								if b.rejects(iff.Block().Succs[dirSucc]) {
+									okDir = true
+								}
+							}
+						}
+					}
+				})
 				if !okDir && bad == "" {
 					bad = "a directory is accepted as a patch file"
 				}
@@ -1240,4 +1286,74 @@ func emptyListPrint(blk *ssa.BasicBlock, applyCall *ssa.Call, roots func(ssa.Val
 		}
 	}
 	return false
+}
+
+// aliasOfStd: g is a package-level variable of the command whose only store, in the package
+// initialiser, is os.<name> (a seam for tests: `var stdin io.Reader = os.Stdin`).
+func (b *Body) aliasOfStd(g *ssa.Global, name string) bool {
+	if g == nil || g.Pkg == nil || g.Pkg.Pkg.Name() != "main" {
+		return false
+	}
+	sts := b.globalStores(g)
+	if len(sts) != 1 || sts[0].Parent() == nil || sts[0].Parent().Name() != "init" {
+		return false
+	}
+	v := sts[0].Val
+	for {
+		switch x := v.(type) {
+		case *ssa.MakeInterface:
+			v = x.X
+			continue
+		case *ssa.ChangeInterface:
+			v = x.X
+			continue
+		}
+		break
+	}
+	og := loadedGlobal(v)
+	return og != nil && og.Name() == name && og.Pkg != nil && og.Pkg.Pkg.Path() == "os"
+}
+
+// stdAliasFree: the same test as aliasOfStd without a Body at hand — g belongs to a main
+// package, is stored exactly once, in the package initialiser, and that store is os.<name>.
+func stdAliasFree(g *ssa.Global, name string) bool {
+	if g == nil || g.Pkg == nil || g.Pkg.Pkg.Name() != "main" {
+		return false
+	}
+	var stores []*ssa.Store
+	var visit func(f *ssa.Function)
+	visit = func(f *ssa.Function) {
+		for _, bb := range f.Blocks {
+			for _, ins := range bb.Instrs {
+				if st, ok := ins.(*ssa.Store); ok && st.Addr == ssa.Value(g) {
+					stores = append(stores, st)
+				}
+			}
+		}
+		for _, a := range f.AnonFuncs {
+			visit(a)
+		}
+	}
+	for _, m := range g.Pkg.Members {
+		if f, ok := m.(*ssa.Function); ok {
+			visit(f)
+		}
+	}
+	if len(stores) != 1 || stores[0].Parent().Name() != "init" {
+		return false
+	}
+	v := stores[0].Val
+	for {
+		switch x := v.(type) {
+		case *ssa.MakeInterface:
+			v = x.X
+			continue
+		case *ssa.ChangeInterface:
+			v = x.X
+			continue
+		}
+		break
+	}
+	og := loadedGlobal(v)
+	return og != nil && og.Name() == name && og.Pkg != nil && og.Pkg.Pkg.Path() == "os"
 }
